@@ -128,12 +128,11 @@ func (c *cluster) onWireMsg(m *streamMon, w *wireMsg) {
 				c.fail("one-vote", "vote-twice", "node %d granted its vote in term %d to node %d and to node %d", dst.id, rq.term, prev, rq.src)
 			}
 			l.votes[key] = rq.src
-			if dst.dir != "" {
-				got := termFileOf(dst.dir)
-				want := fmt.Sprintf("%d-%d.term", rq.term, rq.src)
-				if got != want {
-					c.fail("vote-durable", "vote-not-durable", "node %d replied 'vote granted' to node %d for term %d while its term file is %q", dst.id, rq.src, rq.term, got)
-				}
+			// the reply is written by the connection's goroutine, possibly after the
+			// raft goroutine moved on: require that (term, candidate) was on disk at
+			// some earlier instant (the term file only ever moves forward)
+			if !l.wasPersisted(dst.id, rq.term, rq.src) {
+				c.fail("vote-durable", "vote-not-durable", "node %d replied 'vote granted' to node %d for term %d but (term %d, vote %d) never reached its disk; term file now %q", dst.id, rq.src, rq.term, rq.term, rq.src, termFileOf(dst.dir))
 			}
 		}
 	case *appendReq:
